@@ -24,6 +24,23 @@ def body(c):
     tr, consts = L.run(c, "C12", directed, need_actions=["CalibBatch", "EnterCalib", "ExitCalib"])
     upd = sum(1 for t in tr for e in t[1:] if e["act"] == "CalibBatch" for r in e.get("calib", []) if r["aq"] != "none")
     c.extra["scale_updates_checked"] = upd
+    # streamlining as observed (evidence only): how many quantizing modules lost their activations after a batch in a streamline context
+    lost = kept = 0
+    for t in tr:
+        sl = False
+        for e in t[1:]:
+            if e["act"] == "EnterCalib":
+                sl = bool(e["args"]["streamline"])
+            if e["act"] == "CalibBatch" and sl and e.get("n_ctx") == 1:
+                for r in e.get("calib", []):
+                    if r["aq"] != "none" and "aq_after" in r:
+                        nm = next(m for m in e["mods"] if m["name"] == r["name"])
+                        if nm["aq"] == "none":
+                            lost += 1
+                        else:
+                            kept += 1
+    c.extra["streamline_observed"] = {"modules_that_lost_activations": lost, "modules_that_kept_them": kept,
+                                      "note": "as built `QTensor in types` is never true for QBytesTensor arguments, so every child is cleared (Lifecycle.tla StreamlineTypeTest); outside the listed properties"}
     t, i = L.find_event(tr, lambda e: e["act"] == "CalibBatch" and e["n_ctx"] == 1 and any("in_new" in r and r["aq"] != "none" and r["insc_before"]["f"] != 1.0 for r in e["calib"]))
     r = next(r for r in t[i]["calib"] if "in_new" in r and r["aq"] != "none" and r["insc_before"]["f"] != 1.0)
     r["insc_after"] = dict(r["in_new"], m=r["in_new"]["m"] + [7])     # far away from any average of the two
